@@ -53,8 +53,8 @@ fn alpha(name: &str) -> Vec<MOp> {
 
 fn spaces(tier: Tier) -> Vec<(&'static str, u32)> {
     match tier {
-        Tier::Quick => vec![("MICRO", 2), ("MICRO", 3), ("SHARE", 2), ("CORE", 2), ("MICRO", 4), ("SHARE", 3), ("SAME", 2), ("SAME", 3), ("SELFX", 2), ("SELFX", 3), ("QSYM", 4), ("CHAIN", 4), ("CORE", 3)],
-        Tier::Thorough => vec![("MICRO", 3), ("SHARE", 2), ("CORE", 2), ("MICRO", 4), ("SHARE", 3), ("SAME", 2), ("SAME", 3), ("SELFX", 2), ("SELFX", 3), ("QSYM", 4), ("CHAIN", 4), ("CHAIN", 5), ("CORE", 3), ("MICRO", 5), ("SHARE", 4), ("SAME", 4), ("SELFX", 4), ("MICRO", 6), ("CORE", 4)],
+        Tier::Quick => vec![("MICRO", 2), ("MICRO", 3), ("SHARE", 2), ("CORE", 2), ("MICRO", 4), ("SHARE", 3), ("SAME", 2), ("SAME", 3), ("SELFX", 2), ("SELFX", 3), ("CASC", 2), ("CASC", 3), ("QSYM", 4), ("CHAIN", 4), ("CORE", 3)],
+        Tier::Thorough => vec![("MICRO", 3), ("SHARE", 2), ("CORE", 2), ("MICRO", 4), ("SHARE", 3), ("SAME", 2), ("SAME", 3), ("SELFX", 2), ("SELFX", 3), ("CASC", 2), ("CASC", 3), ("QSYM", 4), ("CHAIN", 4), ("CHAIN", 5), ("CORE", 3), ("MICRO", 5), ("SHARE", 4), ("SAME", 4), ("SELFX", 4), ("MICRO", 6), ("CORE", 4)],
     }
 }
 
@@ -70,13 +70,13 @@ fn decode(a: &[MOp], depth: u32, mut idx: u64) -> Vec<MOp> {
 
 type Fail = (String, String, String);
 
-fn prog(eg: &EGraph<Sym>) -> (usize, usize, usize, usize) {
+fn prog<N: Analysis<Sym>>(eg: &EGraph<Sym, N>) -> (usize, usize, usize, usize) {
     let p = eg.progress();
     (p.number_of_classes, p.number_of_live_classes, p.sum_of_slots, p.sum_of_symmetries)
 }
 
 /// eq over all pairs of handles (false when the query panics)
-fn final_matrix(eg: &EGraph<Sym>, handles: &[AppliedId]) -> Vec<bool> {
+fn final_matrix<N: Analysis<Sym>>(eg: &EGraph<Sym, N>, handles: &[AppliedId]) -> Vec<bool> {
     let mut m = Vec::new();
     for i in 0..handles.len() {
         for j in (i + 1)..handles.len() {
@@ -89,9 +89,9 @@ fn final_matrix(eg: &EGraph<Sym>, handles: &[AppliedId]) -> Vec<bool> {
 /// The same history WITHOUT any query between the operations (queries canonicalise handles and thereby compress the
 /// union-find: long chains only exist while nobody looks).  Only at the end: every handle is usable and the equalities
 /// among the handles are the ones the monitored run ended with.
-fn run_lazy(ops: &[MOp], expect: &[bool]) -> Vec<Fail> {
+fn run_lazy<N: Analysis<Sym> + Default + 'static>(ops: &[MOp], expect: &[bool]) -> Vec<Fail> {
     let nm = Naming::Numeric;
-    let mut eg = EGraph::<Sym>::default();
+    let mut eg = EGraph::<Sym, N>::default();
     let mut rec: Vec<(T, AppliedId)> = Vec::new();
     let mut handles: Vec<AppliedId> = Vec::new();
     let mut fails: Vec<Fail> = Vec::new();
@@ -101,7 +101,7 @@ fn run_lazy(ops: &[MOp], expect: &[bool]) -> Vec<Fail> {
         let r = catch(|| match op {
             MOp::H(o) => apply_op(&mut eg, o, nm, &mut rec),
             MOp::Rw(i) => {
-                let rules = mk_rules(*i);
+                let rules = mk_rules_n::<N>(*i);
                 apply_rewrites(&mut eg, &rules);
             }
         });
@@ -149,9 +149,9 @@ fn run_lazy(ops: &[MOp], expect: &[bool]) -> Vec<Fail> {
     fails
 }
 
-fn run(ops: &[MOp]) -> (Vec<Fail>, u64, u64, Vec<u64>, u64, Vec<bool>) {
+fn run<N: Analysis<Sym> + Default + 'static>(ops: &[MOp]) -> (Vec<Fail>, u64, u64, Vec<u64>, u64, Vec<bool>) {
     let nm = Naming::Numeric;
-    let mut eg = EGraph::<Sym>::default();
+    let mut eg = EGraph::<Sym, N>::default();
     let mut rec: Vec<(T, AppliedId)> = Vec::new();
     let mut fails: Vec<Fail> = Vec::new();
     let mut evals = 0u64;
@@ -178,7 +178,7 @@ fn run(ops: &[MOp]) -> (Vec<Fail>, u64, u64, Vec<u64>, u64, Vec<bool>) {
         let r = catch(|| match op {
             MOp::H(o) => apply_op(&mut eg, o, nm, &mut rec),
             MOp::Rw(i) => {
-                let rules = mk_rules(*i);
+                let rules = mk_rules_n::<N>(*i);
                 apply_rewrites(&mut eg, &rules);
             }
         });
@@ -344,7 +344,7 @@ impl Prop for MonoProp {
         vec!["class_merged", "slot_became_redundant", "handle_of_dead_class_used", "handle_slot_set_shrank", "equal_pair_recorded", "symmetric_pair_recorded"]
     }
     fn rule(&self) -> String {
-        "Every sequence (ordered) of the stated length over union/insert operations of the alphabet plus four rewrite-iteration operations (b-comm, u-elim, f-comm+u-intro, repeated-slot patterns, via apply_rewrites) is executed step by step in one e-graph. After EVERY step the monitor re-checks everything recorded at earlier steps: every invocation ever returned (and the identity invocation of every class that was ever live) can be canonicalised idempotently, is equal to itself, canonicalises to a live class, can be extracted from (and the extracted term looks up to it), its slot set only shrinks; every pair that once compared equal (also up to swapping two slots) still does; the ProgressMeasure moves lexicographically in the documented direction. The same history is then executed a second time WITHOUT any query between the operations (queries compress the union-find): at the end every handle must canonicalise idempotently to a live class and the equalities among the invocations returned for the user's terms must be those of the monitored run. Non-trivial = step count of executions that completed.".into()
+        "Every sequence (ordered) of the stated length over union/insert operations of the alphabet plus four rewrite-iteration operations (b-comm, u-elim, f-comm+u-intro, repeated-slot patterns, via apply_rewrites) is executed step by step in one e-graph. After EVERY step the monitor re-checks everything recorded at earlier steps: every invocation ever returned (and the identity invocation of every class that was ever live) can be canonicalised idempotently, is equal to itself, canonicalises to a live class, can be extracted from (and the extracted term looks up to it), its slot set only shrinks; every pair that once compared equal (also up to swapping two slots) still does; the ProgressMeasure moves lexicographically in the documented direction. The same history is then executed a second time WITHOUT any query between the operations (queries compress the union-find): at the end every handle must canonicalise idempotently to a live class and the equalities among the invocations returned for the user's terms must be those of the monitored run. The small alphabets (MICRO SHARE SAME CASC, depth <=3) a third time, monitored, on an e-graph with the min-size analysis attached. Non-trivial = step count of executions that completed.".into()
     }
     fn assumptions(&self) -> Vec<String> {
         vec!["at most 40 handles are tracked per execution".into()]
@@ -367,13 +367,27 @@ impl Prop for MonoProp {
         let ops2 = ops.clone();
         let opsv: Vec<String> = ops.iter().map(|o| o.show()).collect();
         let ops3 = ops.clone();
+        // the small interaction-rich alphabets a second time with an analysis attached (the rebuild work list then carries
+        // analysis-only entries next to full ones)
+        let analysis_too = d <= 3 && ["MICRO", "SHARE", "SAME", "CASC"].contains(&a);
+        let ops4 = ops.clone();
         match fresh_thread(move || {
-            let mut r = run(&ops2);
+            let mut r = run::<()>(&ops2);
             if r.0.is_empty() && r.4 as usize == ops2.len() {
                 let fm = r.5.clone();
-                let lazy = std::thread::spawn(move || run_lazy(&ops3, &fm)).join().unwrap_or_default();
+                let lazy = std::thread::spawn(move || run_lazy::<()>(&ops3, &fm)).join().unwrap_or_default();
                 r.0.extend(lazy);
                 r.1 += 1;
+            }
+            if analysis_too && r.0.is_empty() {
+                let r2 = std::thread::spawn(move || run::<crate::props::inv::MinSizeReading>(&ops4)).join();
+                match r2 {
+                    Ok(r2) => {
+                        r.0.extend(r2.0.into_iter().map(|(k, key, d)| (k, format!("[with analysis] {key}"), d)));
+                        r.1 += r2.1;
+                    }
+                    Err(_) => r.0.push(("panic".into(), "[with analysis] the monitored run took its thread down".into(), String::new())),
+                }
             }
             (r.0, r.1, r.2, r.3, r.4)
         }) {
